@@ -178,11 +178,13 @@ impl Parser {
             self.start_node(PackagePathname);
             self.skip();
             self.separated_list(PackagePath, Parser::identifier, Dot);
+            self.end_node();
         },
         Dot => {
             self.start_node(AbsolutePathname);
             self.skip();
             self.partial_pathname();
+            self.end_node();
         },
         Circ, Identifier => {
             self.start_node(RelativePathname);
@@ -193,8 +195,8 @@ impl Parser {
                 self.end_node();
             }
             self.partial_pathname();
+            self.end_node();
         });
-        self.end_node();
     }
 
     fn partial_pathname(&mut self) {
